@@ -14,6 +14,17 @@ C_SRC = r"""
 #include <string.h>
 #include <stdint.h>
 #include <stdbool.h>
+#ifdef VF_WATCH_ON
+/* pointer watch: the instrumented COPY of the generated header (NativePrims(watch=True)) reports every source pointer the aligned branch of
+   nunavutCopyBits forms, as a byte offset from the source buffer it was formed from */
+static long vf_psrc = -1;
+#define VF_WATCH(p, b) do { long vf_d_ = (long) ((intptr_t) (p) - (intptr_t) (b)); if (vf_d_ > vf_psrc) vf_psrc = vf_d_; } while (0)
+#define VF_RESET() (vf_psrc = -1)
+#define VF_REPORT() printf(",\"psrc\":%ld", vf_psrc)
+#else
+#define VF_RESET() ((void) 0)
+#define VF_REPORT() ((void) 0)
+#endif
 #include "nunavut/support/serialization.h"
 static char* cur;
 static uint64_t tok(void) { while (*cur == ' ') cur++; char* e; uint64_t v = strtoull(cur, &e, 16); cur = e; return v; }
@@ -28,26 +39,26 @@ int main(void) {
         if (op == 'C') { size_t dn = tok(), doff = tok(), len = tok(), sn = tok(), soff = tok(); uint8_t* d = rd(dn); uint8_t* s = rd(sn);
             nunavutCopyBits(d, doff, len, s, soff); printf("\"out\":"); hex(d, dn); free(d); free(s); }
         else if (op == 'G') { size_t on = tok(), phys = tok(), size = tok(), off = tok(), len = tok(); uint8_t* o = rd(on); uint8_t* b = rd(phys);
-            nunavutGetBits(o, b, size, off, len); printf("\"out\":"); hex(o, on); free(o); free(b); }
+            VF_RESET(); nunavutGetBits(o, b, size, off, len); printf("\"out\":"); hex(o, on); VF_REPORT(); free(o); free(b); }
         else if (op == 'U' || op == 'I') { size_t phys = tok(), size = tok(), off = tok(), len = tok(); uint64_t v = tok(); uint8_t* b = rd(phys);
             int rc = op == 'U' ? nunavutSetUxx(b, size, off, v, (uint8_t) len) : nunavutSetIxx(b, size, off, (int64_t) v, (uint8_t) len);
             printf("\"rc\":\"%s\",\"out\":", kind(rc)); hex(b, phys); free(b); }
         else if (op == 'B') { size_t phys = tok(), size = tok(), off = tok(); int bit = (int) tok(); uint8_t* b = rd(phys);
             int rc = nunavutSetBit(b, size, off, bit != 0); printf("\"rc\":\"%s\",\"out\":", kind(rc)); hex(b, phys); free(b); }
         else if (op == 'g') { int W = (int) tok(), sg = (int) tok(); size_t phys = tok(), size = tok(), off = tok(), len = tok(); uint8_t* b = rd(phys);
-            uint64_t v = 0;
+            uint64_t v = 0; VF_RESET();
             if (!sg) { v = W == 8 ? nunavutGetU8(b, size, off, (uint8_t) len) : W == 16 ? nunavutGetU16(b, size, off, (uint8_t) len) : W == 32 ? nunavutGetU32(b, size, off, (uint8_t) len) : nunavutGetU64(b, size, off, (uint8_t) len); }
             else { v = W == 8 ? (uint64_t)(uint8_t) nunavutGetI8(b, size, off, (uint8_t) len) : W == 16 ? (uint64_t)(uint16_t) nunavutGetI16(b, size, off, (uint8_t) len) : W == 32 ? (uint64_t)(uint32_t) nunavutGetI32(b, size, off, (uint8_t) len) : (uint64_t) nunavutGetI64(b, size, off, (uint8_t) len); }
-            printf("\"val\":"); hex(&v, (size_t) W / 8); free(b); }
+            printf("\"val\":"); hex(&v, (size_t) W / 8); VF_REPORT(); free(b); }
         else if (op == 'b') { size_t phys = tok(), size = tok(), off = tok(); uint8_t* b = rd(phys); uint8_t v = nunavutGetBit(b, size, off) ? 1 : 0; printf("\"val\":"); hex(&v, 1); free(b); }
         else if (op == 'P') { uint32_t u = (uint32_t) tok(); float f; memcpy(&f, &u, 4); uint16_t h = nunavutFloat16Pack(f); printf("\"h\":"); hex(&h, 2); }
         else if (op == 'Q') { uint16_t h = (uint16_t) tok(); float f = nunavutFloat16Unpack(h); printf("\"f\":"); hex(&f, 4); uint16_t h2 = nunavutFloat16Pack(f); printf(",\"h2\":"); hex(&h2, 2); }
         else if (op == 'F') { int W = (int) tok(); size_t phys = tok(), size = tok(), off = tok(); uint64_t v = tok(); uint8_t* b = rd(phys); int rc;
             if (W == 64) { double d; memcpy(&d, &v, 8); rc = nunavutSetF64(b, size, off, d); } else { uint32_t u = (uint32_t) v; float f; memcpy(&f, &u, 4); rc = W == 32 ? nunavutSetF32(b, size, off, f) : nunavutSetF16(b, size, off, f); }
             printf("\"rc\":\"%s\",\"out\":", kind(rc)); hex(b, phys); free(b); }
-        else if (op == 'f') { int W = (int) tok(); size_t phys = tok(), size = tok(), off = tok(); uint8_t* b = rd(phys);
+        else if (op == 'f') { int W = (int) tok(); size_t phys = tok(), size = tok(), off = tok(); uint8_t* b = rd(phys); VF_RESET();
             if (W == 64) { double d = nunavutGetF64(b, size, off); printf("\"val\":"); hex(&d, 8); } else { float f = W == 32 ? nunavutGetF32(b, size, off) : nunavutGetF16(b, size, off); printf("\"val\":"); hex(&f, 4); }
-            free(b); }
+            VF_REPORT(); free(b); }
         printf("}\n");
     }
     return 0;
@@ -115,9 +126,21 @@ def _support(scratch, lang, options, tag):
 class NativePrims:
     kinds = True
 
-    def __init__(self, scratch, lang, options, tag, sanitize=False):
+    def __init__(self, scratch, lang, options, tag, sanitize=False, watch=False):
         self.name = tag
         root = _support(scratch, lang, options, tag)
+        self.watching = False
+        if watch and lang == "c":
+            # instrument a COPY of the generated support header (scratch only): report the source pointer of the aligned copy branch where it is formed
+            import re
+
+            hdr = root / "out" / "nunavut" / "support" / "serialization.h"
+            text = hdr.read_text()
+            new, n = re.subn(r"^([ \t]*)const uint8_t\* const psrc = \(src_offset_bits / 8U\) \+ \(const uint8_t\*\) src;[^\n]*$",
+                             lambda m: m.group(0) + "\n" + m.group(1) + "VF_WATCH(psrc, src);", text, flags=re.M)
+            if n == 1:
+                hdr.write_text(new)
+                self.watching = True
         src = root / ("driver.c" if lang == "c" else "driver.cpp")
         src.write_text(C_SRC if lang == "c" else CPP_SRC)
         self.exe = root / "driver"
@@ -127,6 +150,8 @@ class NativePrims:
             cmd = ["clang++" if sanitize else "g++", "-std=c++14", "-O1", "-w", "-I", str(root / "out"), str(src), "-o", str(self.exe)]
         if sanitize:
             cmd[1:1] = ["-fsanitize=address,undefined", "-fno-sanitize-recover=all"]
+        if self.watching:
+            cmd[1:1] = ["-DVF_WATCH_ON"]
         p = subprocess.run(cmd, stdout=subprocess.PIPE, stderr=subprocess.STDOUT, text=True)
         if p.returncode != 0:
             raise MachineryFailure("primitive driver (%s) does not compile:\n%s" % (tag, p.stdout[-3000:]))
